@@ -114,6 +114,8 @@ type hxSrv struct {
 	armChecks    int
 	expectTimeout time.Duration
 	posCount     map[string]int
+	refuseDials  int      // number of dial attempts that are refused before one reaches the server (fallback port)
+	dialed       []string // addresses the dial function was asked for
 }
 
 func hxNewSrv(caps []string) *hxSrv {
